@@ -23,7 +23,7 @@ import (
 
 type faultSpec struct {
 	Ix   int    `json:"ix"`   // index into the log's entries (mod)
-	Kind string `json:"kind"` // absent | error | junk | wrongshape | stall | slow
+	Kind string `json:"kind"` // absent | error | junk | wrongshape | stall | slow | deadline | canceled (the store's own deadline / cancellation, reported for one block)
 }
 
 type c11Prog struct {
@@ -44,7 +44,7 @@ type c11Prog struct {
 	SlowChain int `json:"slowChain,omitempty"`
 }
 
-var faultKinds = []string{"absent", "error", "junk", "wrongshape", "stall", "slow", "absent", "error", "junk", "slow"}
+var faultKinds = []string{"absent", "error", "junk", "wrongshape", "stall", "slow", "absent", "error", "junk", "slow", "deadline", "canceled"}
 
 func genC11(t *rapid.T) c11Prog {
 	cfg := sim.GenConfig{MaxReplicas: 4, MaxOps: ev.Scale(28, 60), MinOps: 3, Codecs: []int{0}, AppendBias: 3, NoRebuild: true, LargeOneIn: ev.Scale(128, 96)}
@@ -126,6 +126,10 @@ func runC11(tb ev.TB, p c11Prog) ev.Result {
 			w.Store.SetFault(c, fakeipfs.FaultAbsent)
 		case "error":
 			w.Store.SetFault(c, fakeipfs.FaultError)
+		case "deadline":
+			w.Store.SetFault(c, fakeipfs.FaultDeadline)
+		case "canceled":
+			w.Store.SetFault(c, fakeipfs.FaultCanceled)
 		case "stall":
 			w.Store.SetFault(c, fakeipfs.FaultStall)
 			stalls = true
